@@ -39,7 +39,7 @@ RULE = ("case = generated project (tools, weak tools/variables, sandbox provider
         "location; distinct = digest of the base dump")
 COMPONENTS = {"real": ["bob.input (parse, Recipe.prepare, CoreStep.getDigest), bob.intermediate.StepIR.getDigestCoro",
                        "bob project generator plugin 'dumper' of the reference project", "fresh CPython interpreter per evaluation"],
-              "stub": ["directory listing order of the recipe parser (os.walk seam)", "project location / timestamps (harness copies)"],
+              "stub": ["directory listing order of the whole process (os.scandir/os.listdir seam: recipe walk, include globs)", "project location / timestamps (harness copies)"],
               "not_exercised": ["Windows platform tag", "git/url live build ids"]}
 ASSUMPTIONS = ["Build-Ids are computed from supplied source hashes (a function of the checkout Variant-Id)"]
 SHRINK = ["perturbations"]
@@ -59,7 +59,8 @@ def gen_case(rng, tier, index):
     if index % 6 == 5:
         return {"reference": True, "perturbations": [_pert(rng) for _ in range(2)], "root": rng.choice(REFROOTS)}
     feats = {"vars", "diamond"} | set(rng.sample(["tools", "weaktool", "sandbox", "weakvar", "classes", "depenv", "provideVars",
-                                                  "checkoutscript", "import", "forward", "provideDeps", "inhtools", "substenv"],
+                                                  "checkoutscript", "import", "forward", "provideDeps", "inhtools", "substenv",
+                                                  "include_files", "include_files"],
                                                  rng.randint(3, 8)))
     model = projgen.gen_valid_project(rng, nmin=4, nmax=7, features=feats)
     perts = [_pert(rng) for _ in range(rng.choice([2, 3, 4]))]
